@@ -7,6 +7,7 @@ import (
 
 var checks = map[string]func(*Ctx){
 	"C02": runC02,
+	"C03": runC03,
 }
 
 func main() {
